@@ -72,6 +72,7 @@ pub struct Walk<'a> {
     pub hash_of_key: HashMap<u64, u64>,
     /// only the property the run is about is reported (others are ignored even if masked in)
     pub report: String,
+    c16_probe: u32,
 }
 
 impl<'a> Walk<'a> {
@@ -84,6 +85,7 @@ impl<'a> Walk<'a> {
             keyfile: KeyFile::create(shard),
             hash_of_key: HashMap::new(),
             report: report.to_string(),
+            c16_probe: 0,
         }
     }
 
@@ -456,6 +458,65 @@ impl<'a> Walk<'a> {
                     format!("score {sc} is neither the middlegame sum {s_mid} nor the endgame sum {s_end} of the board"),
                     origin,
                 );
+            }
+        }
+
+        if self.mask & M16 != 0 {
+            // the search works on copies of the game: a copy must score like the original, also
+            // after move generation (whose legality filter plays and takes back every move) and
+            // after search-style play/take-back of every king move and a few others
+            self.c16_probe = self.c16_probe.wrapping_add(1);
+            let s_mid = o::zobrist::pst_sum(&eview, &eng::pst_tables(false));
+            let s_end = o::zobrist::pst_sum(&eview, &eng::pst_tables(true));
+            if self.c16_probe % 4 == 0 || s_mid != s_end && g.score() as i32 == s_end {
+                let base = g.score() as i32;
+                let mut c = g.clone();
+                self.out.add("c16_copies_probed", 1);
+                let mut bad: Option<String> = None;
+                if c.score() as i32 != base {
+                    bad = Some(format!("a copy of the game scores {} instead of {base}", c.score()));
+                }
+                let ms = eng::moves(&mut c, true);
+                if bad.is_none() && c.score() as i32 != base {
+                    bad = Some(format!("a copy of the game scores {} instead of {base} after its moves were generated", c.score()));
+                }
+                // which king table the original uses (None when both give the same sum)
+                let endgame = if s_mid == s_end { None } else { Some(base == s_end) };
+                let ksq = [eng::king_sq(g, true), eng::king_sq(g, false)];
+                let mut n = 0;
+                for em in ms {
+                    if bad.is_some() {
+                        break;
+                    }
+                    let t = em.uci_notation();
+                    let Some(m) = eview.find_uci(&t) else { continue };
+                    let is_king = ksq.contains(&m.from);
+                    if !is_king && n >= 3 {
+                        continue;
+                    }
+                    n += 1;
+                    let child = eview.make(&m);
+                    let (c_mid, c_end) = (o::zobrist::pst_sum(&child, &eng::pst_tables(false)), o::zobrist::pst_sum(&child, &eng::pst_tables(true)));
+                    c.push(em);
+                    let got = c.score() as i32;
+                    let ok = match endgame {
+                        Some(true) => got == c_end,
+                        Some(false) => got == c_mid,
+                        None => got == c_mid || got == c_end,
+                    };
+                    if !ok {
+                        bad = Some(format!("on a copy of the game, after {t} the score is {got}; the board sums to {c_mid} (middlegame king table) / {c_end} (endgame king table) and the original uses the {} table",
+                            match endgame { Some(true) => "endgame", Some(false) => "middlegame", None => "same-valued" }));
+                    }
+                    c.pop(em);
+                    self.out.add("c16_copy_moves_played", 1);
+                    if bad.is_none() && c.score() as i32 != base {
+                        bad = Some(format!("on a copy of the game, {t} and its take-back leave the score at {} instead of {base}", c.score()));
+                    }
+                }
+                if let Some(b) = bad {
+                    self.viol("C16", "copy", &fen4, b, origin);
+                }
             }
         }
 
@@ -1120,7 +1181,7 @@ fn summarize(prop: &str, chk: &mut Check, agg: &Agg) {
         .map(|(k, _)| k.trim_start_matches("family_").trim_end_matches("_exhaustive_shards").to_string())
         .collect();
     chk.put("families_enumerated_completely", json!(exhaustive));
-    chk.rule = "positions = every position of oracle-driven random games (9 move policies, up to 398 plies, from the start position and ~85 corpus positions; engine advanced by push_history, push or a mix; every few plies the position is also loaded from text in both en-passant conventions) plus members of enumerated families (K+X v K complete, castling-under-attack complete, en-passant discoveries and promotion targets complete in thorough / strided in quick), random positions built around a pinned piece (incl. the mirrored-diagonal geometry) and every node of depth-2/3 trees from the corpus roots. distinct = by position key (board, side, rights, ep file) merged across workers; non-trivial = the position has at least one of: check, double check, pin, en passant available, castling right for the mover, promotion available, no legal move.".into();
+    chk.rule = "positions = every position of oracle-driven random games (9 move policies, up to 398 plies, from the start position and ~85 corpus positions; engine advanced by push_history, push or a mix; every few plies the position is also loaded from text in both en-passant conventions) plus members of enumerated families (K+X v K complete, castling-under-attack complete, king-among-unmoved-rooks complete and walked one ply further, en-passant discoveries and promotion targets complete in thorough / strided in quick), random positions built around a pinned piece (incl. the mirrored-diagonal geometry) and every node of depth-2/3 trees from the corpus roots. distinct = by position key (board, side, rights, ep file) merged across workers; non-trivial = the position has at least one of: check, double check, pin, en passant available, castling right for the mover, promotion available, no legal move.".into();
     chk.assumptions = vec![
         "the oracle crate (independent rules written from the FIDE laws) is correct; it is validated in setup against published perft counts and hand-checked special cases without consulting the engine".into(),
         "positions outside the generated set are not covered".into(),
@@ -1193,6 +1254,9 @@ fn summarize(prop: &str, chk: &mut Check, agg: &Agg) {
             chk.need("positions where the two king tables differ", agg.c("c16_positions_where_tables_differ"), 100);
             chk.need("endgame table in use", agg.c("c16_endgame_table_in_use"), 10);
             chk.need("mirror pairs", agg.c("c16_mirror_pairs"), 1000);
+            chk.need("copies of the game probed", agg.c("c16_copies_probed"), 1000);
+            chk.need("moves played and taken back on copies", agg.c("c16_copy_moves_played"), 5000);
+            chk.rule.push_str(" || C16 also probes a copy of the game (what every search iteration works on) at every fourth position and at every position scored with the endgame king table: the copy must score like the original, also after move generation and after play/take-back of every king move and three other moves, each child scored with the king table the original uses.");
         }
         "C20" => {
             chk.need("displays checked", agg.c("c20_displays_checked"), 1000);
